@@ -342,6 +342,14 @@ pub fn generate(seed: u64, n: usize, thorough: bool, corpus: Option<&str>) -> Ve
     for d in destructure_programs(false) {
         cases.push(run(d.src, vec!["stream:destructuring".into(), format!("destructure:{}:{}{}:{}", d.source, if d.tuple { "tuple" } else { "single" }, d.vars.len(), d.position)], &mut pool));
     }
+    // ---- typed programs (where section, declarations with bounds, quantified named constraints, enumerate, tuple patterns):
+    //      the generators of C19's where / scopes streams, through every stage
+    {
+        let mut rr = Rng::new(crate::pre_gen::spread_seed(seed ^ 0x7ac3));
+        for src in crate::props::c19::typed_program_sources(&mut rr, if thorough { 1500 } else { 150 }) {
+            cases.push(run(src, vec!["stream:typed-programs".into()], &mut pool));
+        }
+    }
     let restarts = pool.restarts;
     drop(pool);
     // ---- the primitive operator core (in-process, catch_unwind): correspondence with Rooc/Pre/Prim.lean
